@@ -20,6 +20,18 @@ CLAIMED['C05'] = dict(
    text='Step-level Coq model of vyukov_bounded_queue (strong and weak push/pop) tied to the code by trace correspondence on every run (capacities 2,4,8, wrap-arounds, strong/weak mixes); invariant theorems about ticket order and full/empty verdicts (Proof/VyukovInv.v when present); SCQ index arithmetic generated from nikolaev_scq.hpp. nikolaev_bounded_queue and all element kinds are covered by a schedule search with a bounded-FIFO linearizability oracle and an ownership census.',
    note='Trusted: Coq kernel, translator, extraction, xvrt/harness. Proved for the vyukov model only; nikolaev_bounded concurrent behaviour is explored, not proved. SC only.',
    technique='Coq proof over step-level model + generated index arithmetic; trace correspondence; schedule search', design='5/C05')
+CLAIMED['C04'] = dict(
+   text='Machine-checked theorems (Coq 8.16.1) on a step-level model of michael_scott_queue: chain invariant, FIFO conservation (dequeued ++ queued = enqueued, in linearization order) for any number of threads and every schedule, value of a successful pop, emptiness linearization point, no ABA on head. The model (over a reclaimer that never reuses a referenced node) is tied to michael_scott_queue.hpp on every run by trace correspondence. ramalhete_queue and nikolaev_queue (and michael_scott with the real reclaimers HP/EBR/LFRC..., small nodes, pop_retries 0..2) are covered by a schedule search with an exact FIFO linearizability check, conservation and use-after-free / double-free oracles; SCQ index arithmetic is generated from the source and proved (Proof/ScqIndex.v).',
+   note='Trusted: Coq kernel, translator, extraction, xvrt/harness. Proved for the michael_scott model only; ramalhete/nikolaev concurrent linearizability is explored, not proved. SC only.',
+   technique='Coq invariant proof over step-level model; trace correspondence; schedule search with linearizability oracle', design='5/C04')
+CLAIMED['C06'] = dict(
+   text='Machine-checked theorems about the head/tail (index, tag) word of kirsch_bounded_kfifo_queue generated from the source (round trip, 32-bit index field); both k-FIFO queues are covered by a schedule search (random, PCT, preemption-bounded DFS, all k/segment shapes incl. k=1 and one segment, recorded random start index) with an exact k-FIFO linearizability check (strict FIFO emptiness for sequential histories), conservation, and allocator oracles; configurations above 2^16 slots by a 65k-operation regression in the thorough tier or when the proof breaks.',
+   note='Trusted: Coq kernel, translator, xvrt/harness. The proof part covers the index word only; conservation and the k-relaxation are explored, not proved. Known finding C06-kfb-full-after-own-rollback.',
+   technique='Coq proof over generated index arithmetic; schedule search with k-FIFO linearizability oracle', design='5/C06')
+CLAIMED['C07'] = dict(
+   text='Machine-checked theorem about ramalhete_queue node destructor generated from the source: for every node size and every (pop_idx, push_idx) ticket state it destroys exactly the entries of the tickets in [pop, min(push, max)) once each; all queues x owning element kinds (Obj, unique_ptr) x small nodes x destruction with elements inside are covered by a schedule search whose ownership census uses tracked heap tokens (double destruction = double free, leak = live token).',
+   note='Trusted: Coq kernel, translator, xvrt/harness. Proved for the generated destructor loop; the other destructors and roll-back paths are explored, not proved.',
+   technique='Coq proof over generated destructor; schedule search with ownership census', design='5/C07')
 NOT_YET = {}
 props = [json.loads(l) for l in open(os.path.join(V, 'properties.jsonl'))]
 checks, na = [], []
